@@ -754,6 +754,12 @@ def gen_sequences(ctx, alphabet):
     seqs = [[idx[n] for n in ['add0', 'add0', 'replace0', 'deploy', 'eval11', 'replace4', 'eval11', 'deploy', 'eval11', 'tck11']],
             [idx[n] for n in ['add0', 'add1', 'replace3', 'add-bad-base64', 'deploy', 'eval-bad-utf8', 'eval11', 'eval12', 'remove1_12', 'eval11']],
             [idx[n] for n in ['add5', 'add0', 'deploy', 'eval14', 'eval11', 'add-oversized', 'eval11', 'eval-oversized', 'tck11', 'clear', 'eval11']]]
+    # every request of the alphabet (operations that succeed, operations that are refused - an add whose namespace or name is taken -, faults,
+    # unknown routes) sent to a DEPLOYED workspace and followed by evaluations: a refused or failing request must not disturb what follows
+    # (seeded change C18_e: a refused duplicate add deleted the deployed evaluators)
+    for x in range(len(alphabet)):
+        if x not in heavy:
+            seqs.append([idx['add0'], idx['add1'], idx['deploy'], idx['eval11'], x, idx['eval11'], idx['eval12'], idx['tck11']])
     for _ in range(ctx.pick(90, 1500)):
         L = ctx.rng.randint(6, ctx.pick(14, 40))
         s = []
